@@ -334,7 +334,7 @@ class MySQLRecord(ParsableBase):
 
 @attr.s
 class MySQLHandshakeV10(MySQLPacketBase):  # pylint: disable=too-many-instance-attributes
-    protocol_version = attr.ib(validator=attr.validators.in_(MySQLVersion))
+    protocol_version = attr.ib(converter=MySQLVersion, validator=attr.validators.in_(MySQLVersion))
     server_version = attr.ib(validator=attr.validators.instance_of(six.string_types))
     connection_id = attr.ib(validator=attr.validators.instance_of(six.integer_types))
     auth_plugin_data = attr.ib(validator=attr.validators.instance_of((bytes, bytearray)))
@@ -342,7 +342,9 @@ class MySQLHandshakeV10(MySQLPacketBase):  # pylint: disable=too-many-instance-a
         member_validator=attr.validators.instance_of(MySQLCapability),
     ))
     character_set = attr.ib(
-        default=MySQLCharacterSet.UTF8, validator=attr.validators.optional(attr.validators.in_(MySQLCharacterSet))
+        default=MySQLCharacterSet.UTF8,
+        converter=attr.converters.optional(MySQLCharacterSet),
+        validator=attr.validators.optional(attr.validators.in_(MySQLCharacterSet))
     )
     states = attr.ib(default=attr.Factory(dict), validator=attr.validators.deep_iterable(
         member_validator=attr.validators.instance_of(MySQLStatusFlag),
